@@ -170,7 +170,7 @@ class World:
 
     def feed(self, data) -> bool:
         tr = self.transport
-        if tr is None or tr.closing:
+        if tr is None or tr.closing or not tr.made:
             return False
         tr.feed(data)
         return True
